@@ -13,7 +13,9 @@ for tag in sorted(os.listdir(os.path.join(V, "seeded"))):
     tried = sorted({p for r in det["runs"] for p in r["results"]})
     last = det["runs"][-1] if det["runs"] else None
     status = "not run"
-    if det["detected_by"]:
+    if tag.startswith("R"):
+        status = ("quiet: " + ", ".join(tried)) if not det["detected_by"] else ("ALARM from " + ", ".join(det["detected_by"]))
+    elif det["detected_by"]:
         status = "caught by " + ", ".join(det["detected_by"])
     elif last:
         status = "MISSED by " + ", ".join(tried)
